@@ -191,8 +191,9 @@ def fdesc(res):
         return repr(res)[:200]
 
 
-def judge(ck, readers, outcome, kind, desc, DownloadStopped):
-    """All verdicts of one round of concurrent reads."""
+def judge(ck, readers, outcome, kind, desc, DownloadStopped, bogus_guess=False):
+    """All verdicts of one round of concurrent reads.  bogus_guess: the round ran on a fresh node and some read's
+    guessed segment number lies beyond the file's real last segment (own mechanism class for failures)."""
     any_stop = any(r.stop_called for r in readers)
     any_pause = any(r.npauses for r in readers)
     ctx = "/" + kind
@@ -242,6 +243,8 @@ def judge(ck, readers, outcome, kind, desc, DownloadStopped):
             continue
         if isinstance(res, Failure):
             how = "sibling-stopped" if any_stop else "sibling-paused-or-self-paused" if any_pause else "undisturbed"
+            if bogus_guess and res.type.__name__ in ("NoSharesError", "NotEnoughSharesError"):
+                how = "cold-node-guessed-segment-beyond-real-last"
             ck.violation("read-failed-on-honest-grid/%s/%s%s" % (how, res.type.__name__, ctx),
                          "read(offset=%r,size=%r) errbacked with %s (%s)" % (r.offset, r.size, fdesc(res), how), w)
             continue
@@ -379,6 +382,12 @@ def guess_candidates(seg, k):
     return [None, None, seg, 16, max(1, seg // 2), max(1, seg // 3), seg - k, seg - 1, seg + k, 2 * seg, 1, k]
 
 
+def bogus_guess_round(readers, guess_eff, seg, size):
+    """True if some non-empty read of a cold round asks (by the guess) for a segment number >= the real count."""
+    nseg = (size + seg - 1) // seg
+    return guess_eff < seg and any(len(r.expected) and r.offset and r.offset // guess_eff >= nseg for r in readers)
+
+
 def note_cold_guess(ck, readers, guess_eff, seg, size):
     """Behavioural reach counters of cold reads whose first segment request is computed from a wrong guess."""
     for r in readers:
@@ -512,7 +521,8 @@ def sampled_case(ck, rng, i, DownloadStopped):
             if outcome == "steps":
                 ck.observe("step-limit")
                 ck.inconclusive_because("step limit reached in a round of reads")
-            judge(ck, readers, outcome, kind, dict(desc, round=rnd, cold=cold), DownloadStopped)
+            judge(ck, readers, outcome, kind, dict(desc, round=rnd, cold=cold), DownloadStopped,
+                  bogus_guess=cold and kind == "chk" and bogus_guess_round(readers, guess_eff, seg, p["size"]))
             if cold and kind == "chk":
                 note_cold_guess(ck, readers, guess_eff, seg, p["size"])
             was_cold, cold = cold, False
@@ -628,7 +638,8 @@ def enumerated_part(ck, deadline_frac, DownloadStopped):
                             outcome = drive(g, readers, starts)
                         judge(ck, readers, outcome, "chk",
                               dict(k=k, n=p["n"], max_segsize=S, size=size, profile=profile, part="enumeration",
-                                   node=temp, guessed_segsize=guess_eff), DownloadStopped)
+                                   node=temp, guessed_segsize=guess_eff), DownloadStopped,
+                              bogus_guess=temp == "cold" and bogus_guess_round(readers, guess_eff, S, size))
                     if temp == "cold":
                         note_cold_guess(ck, readers, guess_eff, S, size)
                     ck.hit("enumerated-pair-" + temp)
